@@ -600,6 +600,15 @@ def rule_r7(repo, run):
               "the type-bound `generic :: name => a, b, ...` statement lists one specific per overload and must be "
               "assembled from parts joined with break hints (\\t); as one string it cannot be continued and exceeds 132 "
               "columns for a handful of overloads", wf.loc(wcl))
+    # the parameter line of an enumerator: name and value are as long as the user's identifiers (the value can be an
+    # expression of other enumerators): it must be continuable
+    for q, fn in sorted(wf.functions().items()):
+        for c in ast.walk(fn):
+            if isinstance(c, ast.Constant) and isinstance(c.value, str) and "parameter ::" in c.value and "{" in c.value:
+                hints = c.value.count("\t")
+                run.check(R, "wrapf.%s:parameter-line" % q, hints >= 1,
+                          "`%s` has no \\t break hint: an enumerator whose value is an expression of other enumerators gives a line "
+                          "of more than 132 columns that cannot be continued" % c.value, wf.loc(c))
 
 
 def run(repo, run, tier):
